@@ -88,6 +88,8 @@ Definition spec_snippet (s : sstate) (sn : snip) : sstate * obs :=
       | _ => (s, sobs [] (OErr KName (name_error "fw")) [])
       end
   | SnProbeTotal => (s, sobs [] (OErr KName total_msg) [])   (* no snippet can declare `total` *)
+  | SnSwallowOk => (s, sobs ["8"] OOk [])        (* the value returned by the finally block; nothing is defined *)
+  | SnParkFin => (s, sobs ["3"] OOk [])          (* the value the fiber yields; nothing is defined *)
   | SnImport m =>
       if s_imported s m then
         (s_def (GMod m) (VMod m) s, sobs [mod_v m] OOk [])
